@@ -39,8 +39,10 @@ import traceback
 ROOT = os.path.dirname(os.path.dirname(os.path.abspath(__file__)))
 REPO = os.environ.get("VERIF_REPO", "/repo")
 FINDINGS_FILE = os.path.join(ROOT, "KNOWN_FINDINGS.txt")
-EVIDENCE_DIR = os.path.join(ROOT, "evidence")
-REPLAY_DIR = os.path.join(ROOT, "replay")
+SCRATCH = bool(os.environ.get("VERIF_REPO"))
+# runs against a scratch tree (VERIF_REPO) never touch the committed evidence
+EVIDENCE_DIR = os.path.join(ROOT, ".work", "scratch-evidence") if SCRATCH else os.path.join(ROOT, "evidence")
+REPLAY_DIR = os.path.join(ROOT, ".work", "scratch-replay") if SCRATCH else os.path.join(ROOT, "replay")
 MAX_SAMPLES = 8
 MAX_WITNESS_PER_KEY = 3
 
